@@ -7,7 +7,7 @@ REPO = os.environ.get("VERIF_REPO", "/repo")
 COQ = os.path.join(ROOT, "coq")
 WORK = os.path.join(ROOT, "work")
 TARGET = os.path.join(WORK, "target")
-NLH = os.path.join(TARGET, "release", "nlh")
+NLH = os.environ.get("VERIF_NLH") or os.path.join(TARGET, "release", "nlh")     # (override: coverage measurement of the checks themselves)
 NLH_DEBUG = os.path.join(TARGET, "debug", "nlh")
 QFLAGS = ["-Q", "gen", "NL.Gen", "-Q", "model", "NL.Model", "-Q", "spec", "NL.Spec", "-Q", "proofs", "NL.Proofs",
           "-Q", "props", "NL.Props", "-Q", "corr", "NL.Corr"]
